@@ -788,3 +788,100 @@ var concStreamProp = ev.Register(&ev.Prop[StreamCase]{
 func TestC16ConcurrentAnswers(t *testing.T) { concStreamProp.Check(t, 150, 6000) }
 func TestC16StateMachineWire(t *testing.T)  { smProp.Check(t, 2000, 60000) }
 func TestC16Stream(t *testing.T)            { streamProp.Check(t, 300, 10000) }
+
+// ---------------------------------------------------------------------------
+// part 4: the client side of a multi-stream association
+
+// ClientDWACase: a connection made by sm.Client (watchdog on or off, WatchdogStream set) over an
+// in-memory SCTP association; the peer sends watchdog requests of its own on several streams.
+type ClientDWACase struct {
+	Watchdog       bool     `json:"watchdog"`
+	WatchdogStream uint     `json:"watchdog_stream"`
+	CEAStream      uint16   `json:"cea_stream"`
+	DWRStreams     []uint16 `json:"dwr_streams"`
+}
+
+func runClientDWA(c ClientDWACase) *ev.Failure {
+	be := memnet.NewSCTP()
+	sc := diam.NewVerifSCTPConn(be)
+	defer func() { be.FeedEOF(); be.WaitClosed(2 * time.Second); be.Close() }()
+	machine := sm.New(&sm.Settings{OriginHost: "cli.example", OriginRealm: "example", VendorID: 13, ProductName: "verif",
+		HostIPAddresses: []datatype.Address{datatype.Address([]byte{10, 0, 0, 9})}})
+	d := startDrain(machine.ErrorReports())
+	defer d.end()
+	cli := &sm.Client{Handler: machine, RetransmitInterval: 3 * time.Second, EnableWatchdog: c.Watchdog, WatchdogInterval: 30 * time.Second, WatchdogStream: c.WatchdogStream,
+		AuthApplicationID: []*diam.AVP{diam.NewAVP(258, 0x40, 0, datatype.Unsigned32(4))}}
+	go func() {
+		// the peer: answers the CER on the stream chosen for the case
+		if !be.WaitWrites(1, 5*time.Second) {
+			return
+		}
+		ws := be.Writes()
+		if len(ws) == 0 {
+			return
+		}
+		h, err := refcodec.DecodeHeader(ws[0].Data)
+		if err != nil {
+			return
+		}
+		be.Feed(memnet.Chunk{Stream: c.CEAStream, Data: refcodec.EncodeMessage(refcodec.Header{Version: 1, Code: 257, HopByHop: h.HopByHop, EndToEnd: h.EndToEnd},
+			[]*refcodec.Node{{Code: 268, Flags: 0x40, Payload: refcodec.U32(2001)}, {Code: 264, Flags: 0x40, Payload: []byte("srv.example")},
+				{Code: 296, Flags: 0x40, Payload: []byte("example")}, {Code: 257, Flags: 0x40, Payload: refcodec.Address(1, []byte{10, 0, 0, 1})},
+				{Code: 266, Flags: 0x40, Payload: refcodec.U32(13)}, {Code: 269, Payload: []byte("peer")},
+				{Code: 258, Flags: 0x40, Payload: refcodec.U32(4)}}, false)})
+	}()
+	if _, err := cli.NewConn(sc, "peer"); err != nil {
+		return ev.Failf("harness-handshake", "handshake over the in-memory association failed: %v%s", err, d.text())
+	}
+	base := len(be.Writes())
+	for i, s := range c.DWRStreams {
+		be.Feed(memnet.Chunk{Stream: s, Data: refcodec.EncodeMessage(refcodec.Header{Version: 1, Flags: 0x80, Code: 280, HopByHop: uint32(0x7700 + i), EndToEnd: uint32(0x7800 + i)},
+			[]*refcodec.Node{{Code: 264, Flags: 0x40, Payload: []byte("srv.example")}, {Code: 296, Flags: 0x40, Payload: []byte("example")}}, false)})
+	}
+	if !be.WaitWrites(base+len(c.DWRStreams), waitFor) {
+		return ev.Failf("harness-no-answer", "the peer sent %d watchdog requests, the client wrote %d messages within %v%s", len(c.DWRStreams), len(be.Writes())-base, waitFor, d.text())
+	}
+	seen := map[int]bool{}
+	for _, w := range be.Writes()[base:] {
+		h, err := refcodec.DecodeHeader(w.Data)
+		if err != nil || h.Code != 280 || h.Flags&0x80 != 0 {
+			continue // (a DWR of the client's own watchdog)
+		}
+		i := int(h.HopByHop) - 0x7700
+		if i < 0 || i >= len(c.DWRStreams) || h.EndToEnd != uint32(0x7800+i) {
+			return ev.Failf("dwa-header", "the client wrote a DWA with identifiers %#x / %#x that answers none of the peer's requests", h.HopByHop, h.EndToEnd)
+		}
+		seen[i] = true
+		if w.Stream != c.DWRStreams[i] {
+			return ev.Failf("dwa-stream", "a connection made by sm.Client (watchdog enabled: %v, WatchdogStream %d): the peer's DWR %d arrived on stream %d, the DWA was written to stream %d", c.Watchdog, c.WatchdogStream, i, c.DWRStreams[i], w.Stream)
+		}
+	}
+	if len(seen) != len(c.DWRStreams) {
+		return ev.Failf("harness-no-answer", "%d of the peer's %d watchdog requests were answered%s", len(seen), len(c.DWRStreams), d.text())
+	}
+	return nil
+}
+
+var clientDWAProp = ev.Register(&ev.Prop[ClientDWACase]{
+	ID: "C16", Name: "client-dwa-stream",
+	Rule: "a connection made by sm.Client (watchdog off / on with WatchdogStream 0..3, interval 30 s so that none of its own requests interferes) over an in-memory SCTP association; the CEA arrives on stream 0..3; the peer then sends 1..4 watchdog requests on streams 0..15. Demanded: one DWA per request with its identifiers, written to the stream the request arrived on. non-trivial = some request arrives on another stream than WatchdogStream",
+	Gen: func(t *rapid.T) ClientDWACase {
+		c := ClientDWACase{Watchdog: rapid.IntRange(0, 2).Draw(t, "watchdog") != 0, WatchdogStream: uint(rapid.IntRange(0, 3).Draw(t, "watchdog-stream")),
+			CEAStream: uint16(rapid.IntRange(0, 3).Draw(t, "cea-stream"))}
+		n := rapid.IntRange(1, 4).Draw(t, "dwrs")
+		for i := 0; i < n; i++ {
+			c.DWRStreams = append(c.DWRStreams, drawStream(t, fmt.Sprintf("dwr%d-stream", i)))
+		}
+		return c
+	},
+	Run: runClientDWA,
+	Classify: func(c ClientDWACase) (bool, []string) {
+		nt := false
+		for _, s := range c.DWRStreams {
+			nt = nt || uint(s) != c.WatchdogStream
+		}
+		return nt, []string{fmt.Sprintf("watchdog:%v", c.Watchdog)}
+	},
+})
+
+func TestC16ClientDWAStream(t *testing.T) { clientDWAProp.Check(t, 120, 4000) }
